@@ -92,6 +92,9 @@ func Reset() {
 	varByName = map[string]*T{}
 	anfMemo = map[uint32]*anfRes{}
 	atomBitIDs = map[uint64]uint32{}
+	for _, f := range resetHooks {
+		f()
+	}
 	initConsts()
 }
 
@@ -165,6 +168,8 @@ func Bool(b bool) *T {
 }
 
 var True, False *T
+
+var resetHooks []func()
 
 func init() { initConsts() }
 func initConsts() {
